@@ -590,6 +590,24 @@ fn misc_family(props: &str, out: &mut Vec<Fail>) -> usize {
                      _ => Some(("accepted".into(), o.tag())) }, out, "scoping");
         }
     }
+    if props.contains("C17") || props.contains("C07") || props.contains("C05") {
+        // members of bases are re-exposed on the derived type with their docs, signature and convention
+        let src = "pub type A { pub x: u32 }\nimpl A {\n    /// doc of foo\n    #[address(0x10)]\n    pub fn foo(&self, a: u32) -> u32;\n    #[address(0x20)]\n    fn hidden(&self);\n}\n\
+pub type B { vftable { /// doc of vb\n pub fn vb(&self); }, pub y: u32 }\nimpl B {\n    #[address(0x30)]\n    pub fn foo(&mut self);\n}\n\
+pub type D { #[base] pub a: A, #[base] pub b: B }\nimpl D {\n    #[address(0x40)]\n    pub fn own(&self);\n}\n";
+        case(vec![("m", src.to_string())], 4, &|o| match o { Outcome::Ok(st) => {
+            let Some((_, td)) = get_type(st, "m::D") else { return Some(("m::D".into(), "missing".into())) };
+            let got: Vec<String> = td.associated_functions.iter().map(|f| format!("{}|{:?}|{:?}|{}|{:?}", f.name, f.body, f.doc.as_deref().map(|d| d.trim().to_string()), f.arguments.len(), f.visibility)).collect();
+            let want = vec![
+                "foo|Field { field: \"a\", function_name: \"foo\" }|Some(\"doc of foo\")|2|Public".to_string(),
+                "b_foo|Field { field: \"b\", function_name: \"foo\" }|None|1|Public".to_string(),
+                "vb|Field { field: \"b\", function_name: \"vb\" }|Some(\"doc of vb\")|1|Public".to_string(),
+                "own|Address { address: 64 }|None|1|Public".to_string(),
+            ];
+            if got == want { None } else { Some((format!("{want:?}"), format!("{got:?}"))) } }
+            _ => Some(("accepted".into(), o.tag())) }, out, "inherited-functions");
+        case(vec![("m", "pub type T { pub x: u32 }\nimpl T {\n    #[address(1)]\n    pub fn f(&self);\n    #[address(2)]\n    pub fn f(&self);\n}\n".into())], 4, &expect_err, out, "inherited-functions");
+    }
     if props.contains("C15") || props.contains("C17") {
         // an extern value without an address is rejected even after one that has an address
         case(vec![("m", "#[address(0x2000)] pub extern a: u32; pub extern b: u32;".into())], 4, &expect_err, out, "type-attrs");
@@ -692,7 +710,7 @@ fn run_family(prop: &str, seed: u64, quick: bool, out: &mut Vec<Fail>) -> usize 
     if ["C05", "C16", "C17", "C10", "C12"].contains(&prop) { n += fn_family(prop, out); }
     if ["C06", "C16", "C12"].contains(&prop) { n += inherit_family(if prop == "C16" { "C06" } else { prop }, out); }
     if ["C12", "C03"].contains(&prop) { n += absurd_family(out); }
-    if ["C10", "C11", "C14", "C15", "C17", "C19", "C20", "C12"].contains(&prop) { n += misc_family(prop, out); }
+    if ["C05", "C07", "C10", "C11", "C14", "C15", "C17", "C19", "C20", "C12"].contains(&prop) { n += misc_family(prop, out); }
     n
 }
 
